@@ -10,6 +10,7 @@
 (* its first character, recomputed independently from the prefix).          *)
 (***************************************************************************)
 EXTENDS Integers, Sequences, FiniteSets, TLC, Json, SequencesExt
+CONSTANT TrackPieces                                \* record the segmentation (for Accounted and Layout's "pieces" mode)
 Cases == ndJsonDeserialize("cases.ndjson")         \* [id, text, obs?]
 VARIABLES ci, text, pos, row, col, toks, err, pieces, unspec
 vars == <<ci, text, pos, row, col, toks, err, pieces, unspec>>
@@ -62,8 +63,9 @@ OperandEnd == LastType \in {"IDENTIFIER", "NUMBER_LITERAL", "STRING_LITERAL", "B
                             "CLOSING_ROUND_BRACKET", "CLOSING_SQUARE_BRACKET"}
 RECURSIVE Adv(_, _, _, _)          \* position after consuming Text[i..e], starting from (r, c)
 Adv(i, e, r, c) == IF i > e THEN <<r, c>> ELSE IF C(i) = "\n" THEN Adv(i + 1, e, r + 1, 1) ELSE Adv(i + 1, e, r, c + 1)
-Consume(e) == /\ pos' = e + 1 /\ row' = Adv(pos, e, row, col)[1] /\ col' = Adv(pos, e, row, col)[2]
-              /\ pieces' = Append(pieces, SubSeq(Text, pos, e))
+ConsumeK(e, kind) == /\ pos' = e + 1 /\ row' = Adv(pos, e, row, col)[1] /\ col' = Adv(pos, e, row, col)[2]
+                     /\ pieces' = IF TrackPieces THEN Append(pieces, [s |-> SubSeq(Text, pos, e), k |-> kind]) ELSE pieces
+Consume(e) == ConsumeK(e, "tok")
 RECURSIVE FindStr(_, _)             \* first index >= i where s occurs, 0 if none
 FindStr(i, s) == IF i + Len(s) - 1 > N THEN 0 ELSE IF At(i, s) THEN i ELSE FindStr(i + 1, s)
 
@@ -96,16 +98,16 @@ ScanStr(i, acc) == IF i > N \/ C(i) = "\n" THEN <<acc, 0>>            \* a line 
 Init == ci \in 1..Len(Cases) /\ text = Norm(Cases[ci].text, 1) /\ pos = 1 /\ row = 1 /\ col = 1 /\ toks = <<>> /\ err = FALSE /\ pieces = <<>> /\ unspec = FALSE
 Scanning == ~err /\ pos <= N
 Fail == err' = TRUE /\ UNCHANGED <<pos, row, col, toks, pieces, unspec>>
-LexBlank == Scanning /\ C(pos) \in {" ", "\t"} /\ Consume(pos) /\ UNCHANGED <<toks, err, unspec>>
-LexNewline == Scanning /\ C(pos) = "\n" /\ toks' = Append(toks, Tok("NEWLINE", "\n")) /\ Consume(pos) /\ UNCHANGED <<err, unspec>>
+LexBlank == Scanning /\ C(pos) \in {" ", "\t"} /\ ConsumeK(pos, "ws") /\ UNCHANGED <<toks, err, unspec>>
+LexNewline == Scanning /\ C(pos) = "\n" /\ toks' = Append(toks, Tok("NEWLINE", "\n")) /\ ConsumeK(pos, "nl") /\ UNCHANGED <<err, unspec>>
 LexLineComment == /\ Scanning /\ At(pos, "//")
-                  /\ LET nl == FindStr(pos, "\n") IN Consume(IF nl = 0 THEN N ELSE nl - 1)        \* up to, not including, the line end
+                  /\ LET nl == FindStr(pos, "\n") IN ConsumeK(IF nl = 0 THEN N ELSE nl - 1, "com")        \* up to, not including, the line end
                   /\ UNCHANGED <<toks, err, unspec>>
 \* An unterminated block comment is an error in Go; the property lists only unterminated strings and unknown
 \* characters as errors, so the case is flagged unspecified and never compared.
 LexBlockComment == /\ Scanning /\ At(pos, "/*")
                    /\ IF FindStr(pos + 2, "*/") = 0 THEN err' = TRUE /\ unspec' = TRUE /\ UNCHANGED <<pos, row, col, toks, pieces>>
-                      ELSE Consume(FindStr(pos + 2, "*/") + 1) /\ UNCHANGED <<toks, err, unspec>>   \* ends at the FIRST terminator
+                      ELSE ConsumeK(FindStr(pos + 2, "*/") + 1, "com") /\ UNCHANGED <<toks, err, unspec>>   \* ends at the FIRST terminator
 LexString == /\ Scanning /\ C(pos) = "\""
              /\ LET r == ScanStr(pos + 1, "") IN
                 IF r[2] = 0 THEN Fail
@@ -140,8 +142,8 @@ Result == IF err THEN <<>> ELSE Append(toks, [t |-> "EOF", v |-> "", row |-> row
 
 (* ---- properties of the reference scanner itself ---- *)
 RECURSIVE Concat(_)
-Concat(ss) == IF ss = <<>> THEN "" ELSE ss[1] \o Concat(Tail(ss))
-Accounted == Concat(pieces) = SubSeq(Text, 1, pos - 1)                 \* every consumed character accounted for, once
+Concat(ss) == IF ss = <<>> THEN "" ELSE ss[1].s \o Concat(Tail(ss))
+Accounted == TrackPieces => Concat(pieces) = SubSeq(Text, 1, pos - 1)                 \* every consumed character accounted for, once
 PosOf(i) == Adv(1, i - 1, 1, 1)                                       \* row/col of character i, from the prefix alone
 Positions == <<row, col>> = PosOf(pos)
 Deterministic == ~err /\ pos <= N => Cardinality({a \in {"blank", "nl", "lc", "bc", "str", "raw", "num", "word", "punct", "err"} :
